@@ -91,6 +91,7 @@ def Q4(ctx):
         ctx.ok("Q4", fk, "drains with recv() while !is_empty()", [site_str(prog, fk, recvs[0])])
     else:
         ctx.bad("Q4", fk, "dropping the Receiver must drain the channel (messages would otherwise be reported as leaked / destructors skipped)", fn.loc())
+WITNESSES = ['C09ReceiverNotSync']
 
 
 def run(ctx):
